@@ -248,6 +248,8 @@ def shrink_bucket(mod, case, bucket, time_cap):
 
 
 def write_evidence(mod, tier, seed, col, wall, violations, known_hit, extra_cov=None):
+    if os.environ.get("VERIF_NO_EVIDENCE"):  # mutation runs must not overwrite real evidence
+        return
     os.makedirs(os.path.join(VERIF, "evidence"), exist_ok=True)
     cov = dict(
         evaluations=col.evaluations,
